@@ -8,6 +8,7 @@ Tie:    the module emitted by the pdlc built from /repo is imported in a child p
         `.size` vs len(serialize()).
 """
 import os
+import random
 import sys
 
 sys.path.insert(0, os.path.dirname(os.path.dirname(os.path.abspath(__file__))))
@@ -262,6 +263,19 @@ def main(argv):
             for s in seeds[:3]:
                 strings.append(("valid", s))
                 strings += GV.mutants(be.rng, s, 4 if a.tier == "quick" else 10)
+            if has_kids:
+                # reference encodings of the descendants (what the dispatch has to route), and their mutants; own PRNG stream
+                crng = random.Random(a.seed * 104729 + i * 31 + len(T))
+                for D in be.types(i):
+                    if D == T or root_of(types, D) != T:
+                        continue
+                    dv = [GV.gen_value(types, D, crng)[0] for _ in range(2 if a.tier == "quick" else 4)]
+                    dr = be.model(i, D, [{"k": "ref", "v": v} for v in dv])
+                    for x in (dr if isinstance(dr, list) else []):
+                        if x.get("r") == "ok":
+                            sb = bytes.fromhex(x["hex"])
+                            strings.append(("descendant", sb))
+                            strings += GV.mutants(crng, sb, 2 if a.tier == "quick" else 5)
             seen, uniq = set(), []
             for k, s in strings:
                 if s not in seen:
@@ -273,8 +287,46 @@ def main(argv):
             # (a packet with children is parsed through its children's classes: outside the model)
             mjd = be.model(i, T, [{"k": "javadec", "hex": s.hex()} for _, s in uniq]) if not decl.get("parent_id") and not has_kids else None
             mjd = mjd if isinstance(mjd, list) else None
+            # the Lean model of the first-fitting-child dispatch (Pdlv.JavaSpec), for root packets with children
+            mspec = None
+            if not decl.get("parent_id") and has_kids and be.load(i):
+                rs = be.mdl.ask({"op": "inherit", "mode": "ideal", "cases": [{"k": "javaspec", "type": T, "hex": s.hex()} for _, s in uniq]}, timeout=300)
+                if rs and rs.get("status") == "ok":
+                    mspec = rs["out"]
             for n_s, ((kind, s), m) in enumerate(zip(uniq, mo)):
                 r = be.ask(i, T, "dec", s.hex())
+                if mspec is not None and r.get("r") in ("ok", "err"):
+                    ms = mspec[n_s]
+                    if ms.get("r") == "none" or (ms.get("r") == "panic" and ms.get("h") in UNMODELLED):
+                        run.hist("java_dispatch_model", "unmodelled")
+                    else:
+                        same = ms.get("r") == r.get("r") and (r.get("r") != "ok" or (ms.get("type") == r.get("type", T) and
+                                                                                  W.canon(ms.get("value")) == W.canon(r.get("value"))))
+                        run.hist("java_dispatch_model", ("agree:%s" % r.get("r")) + (":child" if r.get("r") == "ok" and r.get("type", T) != T else "")
+                                 if same else "disagree")
+                        if not same:
+                            run.violation("corr", "the model of the emitted Java dispatch (Pdlv.JavaSpec) and fromBytes() disagree on %s %s: model %s %s, emitted %s %s"
+                                          % (T, s.hex()[:40], ms.get("r"), ms.get("type", ""), r.get("r"), r.get("type", "")),
+                                          {"pdl": d["text"], "type": T, "input_hex": s.hex(), "java": r, "model": ms,
+                                           "corr": "corr:C19/java-dispatch-model"}, found_input=False)
+                        if ms.get("r") == "ok" and ms.get("wf"):
+                            # theorem java_dispatch_is_sound, evaluated: the reference reaches the returned class with the
+                            # returned values
+                            run.count("theorem_instances")
+                            run.hist("theorem_hypotheses", "JavaSpec.wfNode:True")
+                            if m.get("r") != "ok":
+                                okk = False
+                            elif ms.get("type") == T:
+                                okk = W.canon(ms.get("value")) == W.canon(m.get("value"))
+                            else:
+                                dn = be.model_down(i, T, ms["type"], m["value"])
+                                okk = bool(dn) and dn.get("r") == "ok" and W.canon(dn["value"]) == W.canon(ms.get("value"))
+                            if not okk:
+                                run.violation("corr", "theorem java_dispatch_is_sound contradicted by evaluation on %s %s (model bug)" % (T, s.hex()[:40]),
+                                              {"pdl": d["text"], "type": T, "input_hex": s.hex(), "model": ms, "reference": m,
+                                               "corr": "thm:java_dispatch_is_sound"}, found_input=False)
+                        elif ms.get("r") == "ok":
+                            run.hist("theorem_hypotheses", "JavaSpec.wfNode:False")
                 if mjd is not None and r.get("r") in ("ok", "err") and r.get("type", T) == T:
                     md = mjd[n_s]
                     if md.get("r") == "panic" and md.get("h") in UNMODELLED:
